@@ -18,4 +18,4 @@ c=$(cargo test --offline --features $FEAT --test mut${n}_demo 2>&1 | grep -E "^t
 rm -f tests/mut${n}_demo.rs
 b=$(cargo test --workspace --no-fail-fast --offline 2>&1 | grep -E "^test result" | awk '{p+=$4; f+=$6} END {print "passed="p" failed="f}')
 git checkout -- .; git clean -fdq -e target
-echo "CONFIRM $(basename $(dirname $dir)) mut$n | clean-demo: $a | mutant-demo: $c | mutant-suite: $b"
+echo "CONFIRM $(basename $dir) mut$n | clean-demo: $a | mutant-demo: $c | mutant-suite: $b"
